@@ -131,6 +131,8 @@ example : usOfSeconds ⟨100000000000000, 1, by decide⟩ = .error .overflow := 
 def Quiet : Op → Prop
   | .set _ => False
   | .clear => False
+  | .fxSetUp _ => False
+  | .fxCleanUp => False
   | _ => True
 
 /-- an op that only reads the clock -/
@@ -143,6 +145,8 @@ def IsRead : Op → Prop
 def amount : Op → Int
   | .advDelta d => d
   | .advSeconds s => match usOfSeconds s with | .ok w => w | .error _ => 0
+  | .fxAdvDelta d => d
+  | .fxAdvSeconds s => match usOfSeconds s with | .ok w => w | .error _ => 0
   | _ => 0
 
 def total (ops : List Op) : Int := (ops.map amount).sum
@@ -172,20 +176,34 @@ theorem read_unchanged (st : Clock) (op : Op) (h : IsRead op) : (step st op).1 =
 /-- one `advance_time_delta` moves the clock by exactly `d` -/
 theorem advance_delta_exact (c d : Int) (h : InRange (c + d)) :
     step (some c) (.advDelta d) = (some (c + d), .none) := by
-  simp only [step]; rw [lemma_mkInstant_ok _ h]
+  simp only [step, advance]; rw [lemma_mkInstant_ok _ h]
 
 /-- one `advance_time_seconds` moves it by exactly `timedelta(seconds=s)` (negative `s` moves
     it back) -/
 theorem advance_seconds_exact (c : Int) (s : Secs) (w : Int) (hw : usOfSeconds s = .ok w)
     (h : InRange (c + w)) :
     step (some c) (.advSeconds s) = (some (c + w), .none) := by
-  simp only [step, hw]; rw [lemma_mkInstant_ok _ h]
+  simp only [step, advanceSeconds, advance, hw]; rw [lemma_mkInstant_ok _ h]
 
 /-- an advance that would leave the representable range raises `OverflowError` and leaves the
     clock where it was -/
 theorem advance_overflow_unchanged (c d : Int) (h : ¬ InRange (c + d)) :
     step (some c) (.advDelta d) = (some c, .err .overflow) := by
-  simp only [step]; rw [lemma_mkInstant_err _ h]
+  simp only [step, advance]; rw [lemma_mkInstant_err _ h]
+
+/-- **TimeFixture** has no time of its own: `setUp` is `set_time_override(constructor instant)`, the
+    clean-up is `clear_time_override()`, and its two advance methods are the two `timeutils` ones — on
+    every state of the cell, so the two entry points can be mixed freely on one override. -/
+theorem fixture_ops_are_cell_ops (st : Clock) (t d : Int) (s : Secs) :
+    step st (.fxSetUp t) = step st (.set t) ∧ step st .fxCleanUp = step st .clear ∧
+    step st (.fxAdvDelta d) = step st (.advDelta d) ∧
+    step st (.fxAdvSeconds s) = step st (.advSeconds s) := ⟨rfl, rfl, rfl, rfl⟩
+
+/-- a fixture set up again (after its clean-up, or over another fixture) starts from its
+    constructor's instant, whatever was advanced before -/
+theorem fixture_setup_again (st : Clock) (pre : List Op) (t : Int) (f : Bool) :
+    step (exec st (pre ++ [.fxSetUp t])) (.utcnow f) = (some t, .instant t) := by
+  simp only [exec, List.foldl_append, List.foldl_cons, List.foldl_nil, step]
 
 /-- advancing without an override fails the `assert` and changes nothing -/
 theorem advance_without_override (d : Int) :
@@ -201,7 +219,21 @@ theorem lemma_step_quiet (c : Int) (op : Op) (hq : Quiet op) (hr : InRange (c + 
     simp only [amount] at hr ⊢
     cases hw : usOfSeconds s with
     | ok w => rw [hw] at hr; rw [advance_seconds_exact c s w hw hr]
-    | error e => simp [step, hw]
+    | error e => simp [step, advanceSeconds, hw]
+  | fxSetUp t => exact absurd hq id
+  | fxCleanUp => exact absurd hq id
+  | fxAdvDelta d =>
+    simp only [amount] at hr ⊢
+    have := advance_delta_exact c d hr
+    simp only [step] at this ⊢; rw [this]
+  | fxAdvSeconds s =>
+    simp only [amount] at hr ⊢
+    cases hw : usOfSeconds s with
+    | ok w =>
+      rw [hw] at hr
+      have := advance_seconds_exact c s w hw hr
+      simp only [step] at this ⊢; rw [this]
+    | error e => simp [step, advanceSeconds, hw]
   | utcnow f => simp [step, amount]
   | utcnowTs m => simp [step, amount]
   | older t s => simp [step, amount]
@@ -209,7 +241,8 @@ theorem lemma_step_quiet (c : Int) (op : Op) (hq : Quiet op) (hr : InRange (c + 
   | soon t s => simp [step, amount]
 
 /-- **advance_exact** — after *any* sequence of advances (by timedelta or by seconds, forwards
-    or backwards) interleaved with any reads, the clock holds `t₀ + Σ dᵢ`. -/
+    or backwards, through `timeutils` or through a `TimeFixture`, in any mixture) interleaved with
+    any reads, the clock holds `t₀ + Σ dᵢ`. -/
 theorem advance_exact (c : Int) (ops : List Op) (hq : ∀ op ∈ ops, Quiet op) (hp : PrefixOk c ops) :
     exec (some c) ops = some (c + total ops) := by
   induction ops generalizing c with
